@@ -50,6 +50,86 @@ pub fn real_bind(vars: &[(String, String)], written: Vec<String>) -> Vec<String>
     r
 }
 
+/// the templates written as one line of script text, the way a user writes them: `cap a1 a2 …`
+/// with `${name}` / `\${name}` / `%{name}` as such, `"`, LF, CR, TAB of the literal text as
+/// `\"`, `\n`, `\r`, `\t`, and quotes around an argument that needs them (empty, white space,
+/// `#`, leading `"` or `=`) or, half of the time, that does not
+pub fn render_text(targs: &[&str], rng_bits: u64) -> String {
+    let mut line = String::from("cap");
+    for (k, a) in targs.iter().enumerate() {
+        line.push(' ');
+        if let Some(r) = a.strip_prefix('S') {
+            line.push_str(&format!("%{{{}}}", dec_str(r).unwrap()));
+            continue;
+        }
+        let mut body = String::new();
+        let mut needs = *a == "T";
+        let mut first_lit: Option<char> = None;
+        let mut first_seg = true;
+        if *a != "T" {
+            for sgm in a.split('+') {
+                let v = dec_str(&sgm[1..]).unwrap();
+                match &sgm[..1] {
+                    "L" => {
+                        if first_seg {
+                            first_lit = v.chars().next();
+                        }
+                        for c in v.chars() {
+                            if c.is_whitespace() || c == '#' {
+                                needs = true;
+                            }
+                            match c {
+                                '"' => body.push_str("\\\""),
+                                '\n' => body.push_str("\\n"),
+                                '\r' => body.push_str("\\r"),
+                                '\t' => body.push_str("\\t"),
+                                _ => body.push(c),
+                            }
+                        }
+                    }
+                    "V" => body.push_str(&format!("${{{}}}", v)),
+                    _ => body.push_str(&format!("\\${{{}}}", v)),
+                }
+                first_seg = false;
+            }
+        }
+        if body.is_empty() || first_lit == Some('"') || first_lit == Some('=') {
+            needs = true;
+        }
+        if needs || (rng_bits >> k) & 1 == 1 {
+            line.push('"');
+            line.push_str(&body);
+            line.push('"');
+        } else {
+            line.push_str(&body);
+        }
+    }
+    line
+}
+
+/// run the one-line script under `vars` in the real parser + runner; what `cap` received
+pub fn real_bind_text(vars: &[(String, String)], text: &str) -> String {
+    let seen = Rc::new(RefCell::new(vec![]));
+    let mut ctx = Context::new();
+    ctx.commands.set(Box::new(Capture { seen: seen.clone() })).unwrap();
+    for (k, v) in vars {
+        ctx.variables.insert(k.clone(), v.clone());
+    }
+    match duckscript::runner::run_script(text, ctx, Some(crate::sdkenv::quiet_env(None))) {
+        Ok(_) => {
+            let r = seen.borrow().last().cloned();
+            match r {
+                Some(v) => enc_list(&v),
+                None => "NOT-A-SCRIPT-LINE".to_string(),
+            }
+        }
+        Err(e) => {
+            let k = format!("{:?}", e);
+            format!("PARSE-ERROR-{}", k.split('(').next().unwrap_or(""))
+        }
+    }
+}
+
 const NAMES: [&str; 6] = ["x", "y", "long_name", "a.b", "é", "n1"];
 
 fn lit(rng: &mut Rng) -> String {
@@ -134,6 +214,13 @@ impl Prop for C02Prop {
         let mut tags = vec!["template"];
         if !spread_names.is_empty() { tags.push("spread"); }
         if targs.iter().any(|t| t.contains('E')) { tags.push("escaped-var"); }
+        if rng.chance(1, 3) {
+            // the same templates written as script text and parsed by the real parser
+            tags.push("as-script-text");
+            let refs: Vec<&str> = targs.iter().map(|s| s.as_str()).collect();
+            let text = render_text(&refs, rng.next());
+            return Case { req: format!("c02t {} {} {}", vs, targs.join(","), enc_str(&text)), in_domain: true, nontrivial, tags };
+        }
         Case { req: format!("c02 {} {}", vs, targs.join(",")), in_domain: true, nontrivial, tags }
     }
     fn run_impl(&self, req: &str, model: &str) -> String {
@@ -143,19 +230,34 @@ impl Prop for C02Prop {
             return enc_list(&real_bind(&vars, dec_list(t[2]).unwrap()));
         }
         let m: Vec<&str> = model.split(' ').collect();
+        if t[0] == "c02t" {
+            if m.len() != 3 {
+                return format!("no-model-output {}", model);
+            }
+            let text = dec_str(t[3]).unwrap();
+            return format!("{} {} {}", m[0], m[1], real_bind_text(&vars, &text));
+        }
         let written = dec_list(m[0]).unwrap();
         format!("{} {} {} {}", m[0], m[1], m[2], enc_list(&real_bind(&vars, written)))
     }
     fn relation(&self, req: &str, model: &str, imp: &str) -> Option<bool> {
-        if !req.starts_with("c02 ") {
-            return if imp == "PANIC" { Some(false) } else { None };
-        }
         if imp == "PANIC" {
             return Some(false);
         }
+        if req.starts_with("c02t ") {
+            let m: Vec<&str> = model.split(' ').collect();
+            if m.len() != 3 || m[0] != "DOM" {
+                return None;
+            }
+            let i: Vec<&str> = imp.split(' ').collect();
+            return Some(i.len() == 3 && i[2] == m[1]);
+        }
+        if !req.starts_with("c02 ") {
+            return None;
+        }
         let m: Vec<&str> = model.split(' ').collect();
         if m[1] != "DOM" {
-            return Some(false);
+            return None; // outside the theorem's domain (shrinking may leave it): no verdict
         }
         let i: Vec<&str> = imp.split(' ').collect();
         Some(i[3] == m[2])
@@ -214,6 +316,9 @@ impl Prop for C02Prop {
                 match &s[..1] { "L" => v, "V" => format!("${{{}}}", v), _ => format!("\\${{{}}}", v) }
             }).collect::<Vec<_>>().join("")
         }).collect();
+        if t[0] == "c02t" {
+            return format!("run script line {:?} with vars={:?}", dec_str(t[3]).unwrap(), vars);
+        }
         format!("bind vars={:?} written={:?}", vars, targs)
     }
 }
